@@ -2,8 +2,8 @@
 # C18/C05: `fclones move` leaves a complete copy under DIR when the source cannot be unlinked
 # (rename failed for a reason other than EXDEV -> silent copy fall-back -> unlink fails -> no roll-back).
 # usage: repro_1.sh <checkout>      exit 1 = defect present, 0 = not present
-CHECKOUT=${1:-/tmp/hunt/n3}
-FC=/tmp/hunt/n3/target/debug/fclones
+CHECKOUT=${1:-/repo}
+FC=${1:-/repo}/target/debug/fclones
 [ -x "$FC" ] || FC="$CHECKOUT/target/debug/fclones"
 T=$(mktemp -d) || exit 2
 chmod 755 "$T"
